@@ -74,7 +74,8 @@ Step(o, dt) ==
      /\ hist' = Append(hist, [op |-> o.op, new |-> o.new, until |-> o.until, auth |-> o.auth,
                               dt |-> dt, exp |-> ev.res])
 
-Next == \E dt \in DTs : \E o \in Ops(now + dt) : Step(o, dt)
+\* (the bound is an enabling condition: TLC does not generate a level it would only discard)
+Next == Len(hist) < Depth /\ \E dt \in DTs : \E o \in Ops(now + dt) : Step(o, dt)
 
 Spec == Init /\ [][Next]_vars
 
